@@ -90,8 +90,12 @@ package size
 //@ pure func unitZeroOK(u bytes) bool = u == "" || unitKnown(u) || unitTooLarge(u)
 //@ pure func multOf(u bytes) uint64 = ite(u == "", 1, unitMult(u))
 
+// the errors of newSize and of the member helpers are typed errors, the decoder's, strconv's or ErrInvalidType,
+// never the object-level sentinels
+//@ pure func memberErr(e error) bool = !errIs(e, ErrInputTooLong) && !errIs(e, ErrObjectTooBig) && !errIs(e, ErrMissingValueKey) && !errIs(e, ErrMissingUnitKey) && !errIs(e, ErrDuplicatedValueKey) && !errIs(e, ErrDuplicatedUnitKey) && !errIs(e, ErrUnexpectedKey)
 // number x unit: exact or refused
 //@ func newSize
+//@   ensures [C12.errors C18.limit] memberErr(r1) && !errIs(r1, ErrInputTooLong)
 //@   mode bv
 //@   ensures [C08.zero] numIsZero(value) ==> (r1 == nil <==> unitZeroOK(unit))
 //@   ensures [C08.exact] !numIsZero(value) ==> (r1 == nil <==> numIsNat64(value) && (unit == "" || unitKnown(unit)) && mulFits64(numToU64(value), multOf(unit)))
@@ -124,10 +128,152 @@ package size
 //@   ensures [C08.text] r1 == nil <==> txtOK(input, r)
 //@   ensures [C08.text] r1 == nil ==> mathint(r0) == mathint(txtValue(input))
 //@   ensures [C08.text C17.zero] r1 != nil ==> r0 == 0 && errAs(r1, *ParseError)
+//@   ensures [C18.limit] !errIs(r1, ErrInputTooLong)
 //@   ensures [C08.class] txtNumber(input) != "" && decOK(txtNumber(input)) && txtUnit(input) != "" && r&RuleDisableUnit != 0 ==> errIs(r1, ErrUnitDisabled)
 
 //@ func newParseError
 //@   inline
+
+// ---- C12: JSON forms ------------------------------------------------------------------------------------------------
+// The document is the ghost token stream of the decoder (see jsonschema.go): kinds 1 '{' 2 '}' 3 '[' 4 ']' 5 string
+// 6 number 7 bool 8 null. valuePos / keyPos: the cursor is at a member value / member key of the level-1 object.
+//@ pure func valuePos(d decoder) bool = decDepth(d) == 1 && decInObj(d) && !decAtKey(d)
+//@ pure func keyPos(d decoder) bool = decDepth(d) == 1 && decInObj(d) && decAtKey(d)
+
+// the tokens a helper consumes are not member keys of the top-level object
+//@ pure func noKeys(d decoder, from int, to int) bool = (forall j in from..to :: !tokIsKey(d, j)) && tokNKeys(d, to) == tokNKeys(d, from)
+//@ pure func isValKey(d decoder, j int) bool = tokIsKey(d, j) && lowerIs(tokText(d, j), "value")
+//@ pure func isUnitKey(d decoder, j int) bool = tokIsKey(d, j) && lowerIs(tokText(d, j), "unit")
+
+//@ func decodeValue
+//@   requires valuePos(d)
+//@   ensures [C12.member] noKeys(d, old(decPos(d)), decPos(d))
+//@   ensures [C12.member] r1 == nil ==> r0 != nil && tokKind(d, old(decPos(d))) == 6 && decOK(tokText(d, old(decPos(d)))) && *r0 == decVal(tokText(d, old(decPos(d))))
+//@   ensures [C12.member] r1 == nil ==> keyPos(d) && decPos(d) == old(decPos(d)) + 1
+//@   ensures [C12.member] r1 != nil ==> r0 == nil && memberErr(r1)
+//@   ensures [C12.type] old(decPos(d)) < decNTok(d) && tokKind(d, old(decPos(d))) != 6 ==> errIs(r1, ErrInvalidType)
+//@   assigns decoder(d)
+
+//@ func decodeUnit
+//@   requires valuePos(d)
+//@   ensures [C12.member] noKeys(d, old(decPos(d)), decPos(d))
+//@   ensures [C12.member] r1 == nil ==> r0 != nil && tokKind(d, old(decPos(d))) == 5 && *r0 == tokText(d, old(decPos(d)))
+//@   ensures [C12.member] r1 == nil ==> keyPos(d) && decPos(d) == old(decPos(d)) + 1
+//@   ensures [C12.member] r1 != nil ==> r0 == nil && memberErr(r1)
+//@   ensures [C12.type] old(decPos(d)) < decNTok(d) && tokKind(d, old(decPos(d))) != 5 ==> errIs(r1, ErrInvalidType)
+//@   assigns decoder(d)
+
+// skipping a member value of any nesting: on success the cursor is back at a key of the same object
+//@ func decodeAndSkipNested
+//@   requires valuePos(d)
+//@   ensures [C12.skip] result == nil ==> keyPos(d) && decPos(d) > old(decPos(d))
+//@   ensures [C12.skip] noKeys(d, old(decPos(d)), decPos(d))
+//@   ensures [C12.skip] memberErr(result)
+//@   assigns decoder(d)
+//@   loop 0 invariant depth >= 1 && depth <= decPos(d)
+//@   loop 0 invariant decDepth(d) == 1 + depth
+//@   loop 0 invariant decInObj(d)
+//@   loop 0 invariant decPos(d) > old(decPos(d))
+//@   loop 0 invariant noKeys(d, old(decPos(d)), decPos(d))
+//@   loop 0 decreases decNTok(d) - decPos(d)
+
+// The member loop. p0 is the cursor at entry (just after '{'). The loop invariant describes the members read so
+// far through the document's own token stream, so the final statement does not mention the order of members:
+// on success there is exactly one value member and exactly one unit member among the object's keys, and the
+// result is what newSize gives for that pair.
+//@ pure func sizeOfPair(res Size, v uint64, u string) bool = ite(v == 0, unitZeroOK(u) && res == 0, (u == "" || unitKnown(u)) && mulFits64(v, multOf(u)) && mathint(res) == mathint(v) * mathint(multOf(u)))
+//@ pure func valMember(d decoder, j int, v uint64) bool = isValKey(d, j) && tokKind(d, j+1) == 6 && decOK(tokText(d, j+1)) && v == decVal(tokText(d, j+1))
+//@ pure func unitMember(d decoder, j int, u string) bool = isUnitKey(d, j) && tokKind(d, j+1) == 5 && u == tokText(d, j+1)
+//@ func unmarshalJSONObject
+//@   requires keyPos(d)
+//@   ghost p0 = decPos(d)
+//@   ensures [C12.object] r1 == nil ==> exists jv in p0..decPos(d) :: exists ju in p0..decPos(d) :: valMember(d, jv, decVal(tokText(d, jv+1))) && unitMember(d, ju, tokText(d, ju+1)) && sizeOfPair(r0, decVal(tokText(d, jv+1)), tokText(d, ju+1)) && (forall k in p0..decPos(d) :: k != jv ==> !isValKey(d, k)) && (forall k in p0..decPos(d) :: k != ju ==> !isUnitKey(d, k))
+//@   ensures [C12.unknown] r1 == nil && r&RuleDisallowUnknownKeys != 0 ==> forall j in p0..decPos(d) :: tokIsKey(d, j) ==> isValKey(d, j) || isUnitKey(d, j)
+//@   ensures [C12.maxkeys] r1 == nil && MaxObjectKeys != 0 ==> tokNKeys(d, decPos(d)) - tokNKeys(d, p0) <= MaxObjectKeys
+//@   ensures [C12.end] r1 == nil ==> keyPos(d) && ((decPos(d) < decNTok(d) && tokKind(d, decPos(d)) == 2) || (decPos(d) == decNTok(d) && !decGarbage(d)))
+//@   ensures [C12.errors] errIs(r1, ErrObjectTooBig) ==> MaxObjectKeys != 0 && tokNKeys(d, decPos(d)) - tokNKeys(d, p0) > MaxObjectKeys
+//@   ensures [C12.errors] errIs(r1, ErrMissingValueKey) ==> forall j in p0..decPos(d) :: !isValKey(d, j)
+//@   ensures [C12.errors] errIs(r1, ErrMissingUnitKey) ==> forall j in p0..decPos(d) :: !isUnitKey(d, j)
+//@   ensures [C12.errors C17.zero] r1 != nil ==> r0 == 0
+//@   ensures [C18.limit] !errIs(r1, ErrInputTooLong)
+//@   assigns decoder(d)
+//@   loop 0 invariant keyPos(d) && p0 <= decPos(d) && i >= 0
+//@   loop 0 invariant i == tokNKeys(d, decPos(d)) - tokNKeys(d, p0)
+//@   loop 0 invariant i <= decPos(d) - p0
+//@   loop 0 invariant value == nil ==> forall j in p0..decPos(d) :: !isValKey(d, j)
+//@   loop 0 invariant unit == nil ==> forall j in p0..decPos(d) :: !isUnitKey(d, j)
+//@   loop 0 invariant value != nil ==> exists j in p0..decPos(d) :: valMember(d, j, *value) && j+1 < decPos(d) && forall k in p0..decPos(d) :: k != j ==> !isValKey(d, k)
+//@   loop 0 invariant unit != nil ==> exists j in p0..decPos(d) :: unitMember(d, j, *unit) && j+1 < decPos(d) && forall k in p0..decPos(d) :: k != j ==> !isUnitKey(d, k)
+//@   loop 0 invariant r&RuleDisallowUnknownKeys != 0 ==> forall j in p0..decPos(d) :: tokIsKey(d, j) ==> isValKey(d, j) || isUnitKey(d, j)
+//@   loop 0 decreases decNTok(d) - decPos(d)
+
+//@ func newOrError
+//@   ensures [C12.missing] value == nil ==> errIs(r1, ErrMissingValueKey)
+//@   ensures [C12.missing] value != nil && unit == nil ==> errIs(r1, ErrMissingUnitKey)
+//@   ensures [C12.object] value != nil && unit != nil ==> (r1 == nil <==> ite(*value == 0, unitZeroOK(*unit), (*unit == "" || unitKnown(*unit)) && mulFits64(*value, multOf(*unit))))
+//@   ensures [C12.object] value != nil && unit != nil && r1 == nil && *value != 0 ==> mathint(r0) == mathint(*value) * mathint(multOf(*unit))
+//@   ensures [C12.object] r1 != nil || (value != nil && *value == 0) ==> r0 == 0
+//@   ensures [C12.errors] (errIs(r1, ErrMissingValueKey) ==> value == nil) && (errIs(r1, ErrMissingUnitKey) ==> unit == nil) && !errIs(r1, ErrObjectTooBig) && !errIs(r1, ErrInputTooLong)
+
+//@ func expectEnd
+//@   ensures [C12.single] result == nil <==> old(decPos(d)) == decNTok(d) && !decGarbage(d)
+//@   ensures [C12.single] old(decPos(d)) < decNTok(d) ==> errIs(result, ErrUnexpectedData)
+//@   ensures [C18.limit] !errIs(result, ErrInputTooLong)
+//@   assigns decoder(d)
+
+// The whole document, as the parser's caller sees it: `w` is the input text, its tokens are docKind/docText,
+// docNTok counts the well-formed tokens and docGarbage says whether anything that is not a token follows them.
+//@ pure func wValKey(w bytes, j int) bool = docIsKey(w, j) && lowerIs(docText(w, j), "value")
+//@ pure func wUnitKey(w bytes, j int) bool = docIsKey(w, j) && lowerIs(docText(w, j), "unit")
+//@ pure func wValMember(w bytes, j int) bool = wValKey(w, j) && docKind(w, j+1) == 6 && decOK(docText(w, j+1))
+//@ pure func wUnitMember(w bytes, j int) bool = wUnitKey(w, j) && docKind(w, j+1) == 5
+//@ pure func single(w bytes) bool = docNTok(w) == 1 && !docGarbage(w)
+// number and string forms: exactly one token, read by the text rules with no rule flag
+//@ pure func scalarOutcome(w bytes, res Size, err error) bool = (err == nil <==> single(w) && txtOK(docText(w, 0), 0))
+//@     && (err == nil ==> mathint(res) == mathint(txtValue(docText(w, 0))))
+//@     && (docNTok(w) > 1 ==> errIs(err, ErrUnexpectedData))
+// object form: '{' members '}' and nothing else; exactly one value member and one unit member among the keys of the
+// object, wherever they stand; no other key when unknown keys are disallowed; at most MaxObjectKeys keys
+//@ pure func objectOutcome(w bytes, r Rule, res Size, err error) bool = (r&RuleEnableJSONObjectForm == 0 ==> errIs(err, ErrObjectFormDisabled))
+//@     && (err == nil ==> r&RuleEnableJSONObjectForm != 0 && docNTok(w) >= 2 && docKind(w, docNTok(w)-1) == 2 && !docGarbage(w)
+//@         && (exists jv in 1..docNTok(w)-1 :: exists ju in 1..docNTok(w)-1 :: wValMember(w, jv) && wUnitMember(w, ju)
+//@               && sizeOfPair(res, decVal(docText(w, jv+1)), docText(w, ju+1))
+//@               && (forall k in 1..docNTok(w)-1 :: k != jv ==> !wValKey(w, k)) && (forall k in 1..docNTok(w)-1 :: k != ju ==> !wUnitKey(w, k)))
+//@         && (r&RuleDisallowUnknownKeys != 0 ==> forall j in 1..docNTok(w)-1 :: docIsKey(w, j) ==> wValKey(w, j) || wUnitKey(w, j))
+//@         && (MaxObjectKeys != 0 ==> docNKeys(w, docNTok(w)-1) - docNKeys(w, 1) <= MaxObjectKeys))
+//@ pure func jsonOutcome(w bytes, r Rule, res Size, err error) bool = (docNTok(w) == 0 ==> err != nil)
+//@     && (docNTok(w) >= 1 && docKind(w, 0) == 6 ==> scalarOutcome(w, res, err))
+//@     && (docNTok(w) >= 1 && docKind(w, 0) == 5 && r&RuleEnableJSONStringForm != 0 ==> scalarOutcome(w, res, err))
+//@     && (docNTok(w) >= 1 && docKind(w, 0) == 5 && r&RuleEnableJSONStringForm == 0 ==> errIs(err, ErrStringFormDisabled))
+//@     && (docNTok(w) >= 1 && docKind(w, 0) == 1 ==> objectOutcome(w, r, res, err))
+//@     && (docNTok(w) >= 1 && docKind(w, 0) == 3 ==> errIs(err, ErrExpectedObject))
+//@     && (docNTok(w) >= 1 && (docKind(w, 0) == 7 || docKind(w, 0) == 8) ==> errIs(err, ErrInvalidType))
+//@ func unmarshalJSON
+//@   ensures [C12.forms] jsonOutcome(input, r, r0, r1)
+//@   ensures [C12.forms C17.zero] r1 != nil ==> r0 == 0 && errAs(r1, *ParseError)
+//@   ensures [C18.limit] !errIs(r1, ErrInputTooLong)
+//@   ensures [C17.input] heapSame()
+
+//@ pure func withinLimit(n int) bool = MaxInputLength == 0 || n <= MaxInputLength
+//@ func DefaultParser
+//@   ensures [C12.forms] withinLimit(len(input)) && r&(RuleEnableJSONStringForm|RuleEnableJSONObjectForm) != 0 ==> jsonOutcome(input, r, r0, r1)
+//@   ensures [C08.text] withinLimit(len(input)) && r&(RuleEnableJSONStringForm|RuleEnableJSONObjectForm) == 0 ==> (r1 == nil <==> txtOK(input, r)) && (r1 == nil ==> mathint(r0) == mathint(txtValue(input)))
+//@   ensures [C17.zero] r1 != nil ==> r0 == 0 && errAs(r1, *ParseError)
+//@   ensures [C18.limit] !withinLimit(len(input)) ==> errIs(r1, ErrInputTooLong) && errData(r1, "inputLen") == 0
+//@   ensures [C18.limit] errIs(r1, ErrInputTooLong) ==> !withinLimit(len(input))
+//@   ensures [C17.input] heapSame()
+
+//@ func (*Size).UnmarshalText
+//@   ensures [C17.recv] result != nil ==> *s == old(*s)
+//@   ensures [C08.text] (result == nil <==> withinLimit(len(data)) && txtOK(data, DefaultRule&RuleDisableUnit)) && (result == nil ==> mathint(*s) == mathint(txtValue(data)))
+//@   ensures [C17.input] heapSame()
+//@   assigns *s
+
+//@ func (*Size).UnmarshalJSON
+//@   ensures [C17.recv] result != nil ==> *s == old(*s)
+//@   ensures [C12.forms] withinLimit(len(data)) && DefaultRule&(RuleEnableJSONStringForm|RuleEnableJSONObjectForm) != 0 ==> jsonOutcome(data, DefaultRule, *s, result) || result != nil
+//@   ensures [C17.input] heapSame()
+//@   assigns *s
 
 //@ func newInvalidUnitError
 //@   inline
